@@ -38,6 +38,8 @@ def datafit_spec_and_target(draw, fam, X):
             spec["sample_weights"] = [draw(st.integers(1, 40)) / 10. for _ in range(n)]
         return spec, y
     if fam in ("Logistic", "LogisticGroup", "QuadraticSVC"):
+        if draw(st.booleans()):
+            return spec, draw(gen.planted_sign_target(X))
         return spec, draw(gen.sign_target(n))
     if fam == "Poisson":
         return spec, draw(gen.count_target(n))
@@ -669,3 +671,20 @@ def unsorted_groups(case):
         return False
     flat = [j for grp in g for j in grp]
     return flat != list(range(len(flat)))
+
+
+@st.composite
+def svc_extrapolation_case(draw):
+    """LinearSVC dual (QuadraticSVC + IndicatorBox) shaped so that Anderson extrapolations are computed on many
+    interior dual variables and the budget ends exactly on an extrapolation step (epochs 7, 14, 21 with K = 5)."""
+    n = draw(st.integers(16, 40))
+    p = draw(st.integers(3, 10))
+    K = draw(gen.hnp.arrays(np.int16, (n, p), elements=st.integers(-3000, 3000)))
+    X = K.astype(float) / 1000.
+    y = draw(gen.planted_sign_target(X))
+    return dict(X=X.tolist(), y=y, flags=["generic", "svc-extrapolation"], datafit=dict(name="QuadraticSVC"),
+                penalty=dict(name="IndicatorBox", alpha=draw(st.sampled_from([.1, 1., 10.]))),
+                solver=dict(name="AndersonCD", max_iter=draw(st.sampled_from([1, 1, 2])), max_epochs=draw(st.sampled_from([7, 14, 21, 6, 8])),
+                            p0=draw(st.sampled_from([10, 40])), tol=1e-12, ws_strategy=draw(st.sampled_from(["subdiff", "fixpoint"])),
+                            fit_intercept=False),
+                storage=draw(st.sampled_from(["dense", "csc"])), init=None)
